@@ -24,7 +24,7 @@ pub(crate) mod verif_js_op {
 
     pub(crate) const LABELS: [u8; 4] = [b'a', b'b', b'c', b'#'];
     pub(crate) static mut S2N_PLAN: [Option<f64>; 4] = [None; 4];
-    pub(crate) static mut TS_PTR: [usize; 2] = [0; 2];
+    pub(crate) static mut TS_PTR: [*const Value; 2] = [std::ptr::null(); 2];
     pub(crate) static mut TS_LABEL: [u8; 2] = [b'a'; 2];
 
     fn label_idx(l: u8) -> usize {
@@ -71,7 +71,7 @@ pub(crate) mod verif_js_op {
             Value::String(s) => s.clone(),
             Value::Number(_) => label_string(b'#'),
             _ => {
-                let p = value as *const Value as usize;
+                let p = value as *const Value;
                 let l = unsafe {
                     if p == TS_PTR[0] {
                         TS_LABEL[0]
@@ -161,8 +161,8 @@ pub(crate) mod verif_js_op {
     }
     pub(crate) fn register(a: &Value, b: &Value) {
         unsafe {
-            TS_PTR[0] = a as *const Value as usize;
-            TS_PTR[1] = b as *const Value as usize;
+            TS_PTR[0] = a as *const Value;
+            TS_PTR[1] = b as *const Value;
         }
     }
     pub(crate) fn plan_conversions() {
@@ -287,6 +287,229 @@ pub(crate) mod verif_js_op {
         assert!(le == spec_rel(sa, sb, false), "abstract_lte differs from ECMAScript a <= b (converted operands less or equal)");
         assert!(abstract_gt(&b, &a) == lt, "abstract_gt(b, a) differs from abstract_lt(a, b)");
         assert!(abstract_gte(&b, &a) == le, "abstract_gte(b, a) differs from abstract_lte(a, b)");
+    }
+
+    // =====================================================================================
+    // to_number / to_primitive dispatch (C09, C10): Number-style conversion per kind.
+    // =====================================================================================
+    pub(crate) fn spec_to_number(a: SV) -> Option<f64> {
+        match a {
+            SV::Null => Some(0.0),
+            SV::Bool(b) => Some(if b { 1.0 } else { 0.0 }),
+            SV::Num(x) => Some(x),
+            SV::Str(l) | SV::Obj(l) => unsafe { S2N_PLAN[label_idx(l)] },
+        }
+    }
+    fn same_opt_f64(a: Option<f64>, b: Option<f64>) -> bool {
+        match (a, b) {
+            (None, None) => true,
+            (Some(x), Some(y)) => x.to_bits() == y.to_bits() || (x == y) || (x.is_nan() && y.is_nan()),
+            _ => false,
+        }
+    }
+    pub(crate) fn body_to_number(k: u8) {
+        plan_conversions();
+        let (a, sa) = mk(k, 0, K_NULL);
+        register(&a, &a);
+        #[cfg(verif_replay)]
+        eprintln!("REPLAY-INPUT: to_number(a): a = {}", &*a);
+        let r = to_number(&a);
+        kani::cover!(true, "assertions reached");
+        assert!(same_opt_f64(r, spec_to_number(sa)), "to_number differs from Number-style conversion (null,false->0; true->1; number; string and container string form by ToNumber)");
+        // to_primitive_number: numeric primitives only
+        let p = to_primitive_number(&a);
+        let expect = match sa {
+            SV::Null | SV::Bool(_) | SV::Num(_) => spec_to_number(sa),
+            _ => None,
+        };
+        assert!(same_opt_f64(p, expect), "to_primitive_number: numeric primitive expected exactly for null/bool/number");
+    }
+    macro_rules! kind_harness {
+        ($name:ident, $body:ident, $k:expr) => {
+            #[cfg_attr(kani, kani::proof)]
+            #[cfg_attr(kani, kani::stub(crate::js_op::str_to_number, s2n_stub))]
+            #[cfg_attr(kani, kani::stub(crate::js_op::to_string, to_string_stub))]
+            #[cfg_attr(kani, kani::stub(std::fmt::format, crate::verif_support::fmt_stub))]
+            pub(crate) fn $name() {
+                $body($k);
+            }
+        };
+    }
+    //@ob name=C10.to_number.null harness=k_c10_to_number_null props=C10,C09,C01 strength=complete fns=js_op::to_number,js_op::to_primitive_number stubs=3 replay=generic
+    //@ desc="to_number(null) == 0"
+    kind_harness!(k_c10_to_number_null, body_to_number, K_NULL);
+    //@ob name=C10.to_number.bool harness=k_c10_to_number_bool props=C10,C09,C01 strength=complete fns=js_op::to_number,js_op::to_primitive_number stubs=3 replay=generic
+    //@ desc="to_number(false) == 0, to_number(true) == 1"
+    kind_harness!(k_c10_to_number_bool, body_to_number, K_BOOL);
+    //@ob name=C10.to_number.num harness=k_c10_to_number_num props=C10,C09,C01 strength=complete fns=js_op::to_number,js_op::to_primitive_number stubs=3 replay=generic
+    //@ desc="to_number(n) == n as a double, for every i64 / u64 / finite f64"
+    kind_harness!(k_c10_to_number_num, body_to_number, K_NUM);
+    //@ob name=C10.to_number.str harness=k_c10_to_number_str props=C10,C09,C01 strength=complete fns=js_op::to_number stubs=3 replay=generic
+    //@ desc="to_number(string) == str_to_number(string) (callee by contract)"
+    kind_harness!(k_c10_to_number_str, body_to_number, K_STR);
+    //@ob name=C10.to_number.arr harness=k_c10_to_number_arr props=C10,C09,C01 strength=complete fns=js_op::to_number stubs=3 replay=generic
+    //@ desc="to_number(array) == str_to_number(to_string(array)) (callees by contract)"
+    kind_harness!(k_c10_to_number_arr, body_to_number, K_ARR);
+    //@ob name=C10.to_number.obj harness=k_c10_to_number_obj props=C10,C09,C01 strength=complete fns=js_op::to_number stubs=3 replay=generic
+    //@ desc="to_number(object) == str_to_number(to_string(object)) (callees by contract)"
+    kind_harness!(k_c10_to_number_obj, body_to_number, K_OBJ);
+
+    // =====================================================================================
+    // Binary arithmetic helpers (C10): with to_number by contract (an arbitrary Option<f64> per
+    // operand), the result is Err iff an operand is non-numeric, else the exact IEEE-754 result.
+    // =====================================================================================
+    pub(crate) static mut TN_PTR: [*const Value; 5] = [std::ptr::null(); 5];
+    pub(crate) static mut TN_PLAN: [Option<f64>; 5] = [None; 5];
+    pub(crate) static mut TN_CALLS: [u8; 5] = [0; 5];
+    /// contract stub for `to_number` / `parse_float`: the planned conversion of the operand at that address.
+    pub(crate) fn to_number_stub(value: &Value) -> Option<f64> {
+        let p = value as *const Value;
+        let mut i = 0;
+        while i < 5 {
+            if unsafe { TN_PTR[i] } == p {
+                unsafe { TN_CALLS[i] += 1 };
+                return unsafe { TN_PLAN[i] };
+            }
+            i += 1;
+        }
+        assert!(false, "conversion requested for a value that is not an operand");
+        None
+    }
+    fn plan_operand(i: usize, v: &Value) -> Option<f64> {
+        let has: bool = kani::any();
+        let x: f64 = kani::any();
+        // a JSON value never converts to NaN-as-a-number: non-numeric is None (contract of to_number)
+        kani::assume(!x.is_nan());
+        let p = if has { Some(x) } else { None };
+        unsafe {
+            TN_PTR[i] = v as *const Value;
+            TN_PLAN[i] = p;
+        }
+        p
+    }
+    fn same_f64(a: f64, b: f64) -> bool {
+        a.to_bits() == b.to_bits() || (a.is_nan() && b.is_nan())
+    }
+    macro_rules! check_bin {
+        ($r:expr, $pa:expr, $pb:expr, $op:tt) => {
+            match ($pa, $pb) {
+                (Some(x), Some(y)) => match &*$r {
+                    Ok(v) => {
+                        let expect = x $op y;
+                        assert!(same_f64(*v, expect), "binary arithmetic helper: not the exact IEEE-754 result")
+                    }
+                    Err(_) => assert!(false, "binary arithmetic helper: error although both operands are numeric"),
+                },
+                _ => assert!($r.is_err(), "binary arithmetic helper: a number although an operand is non-numeric"),
+            }
+        };
+    }
+    //@ob name=C10.abstract_minus props=C10,C01 strength=complete fns=js_op::abstract_minus stubs=2
+    //@ desc="abstract_minus(a,b): Err iff an operand is non-numeric, else bit-exactly to_number(a) - to_number(b), for all pairs of doubles"
+    #[cfg_attr(kani, kani::proof)]
+    #[cfg_attr(kani, kani::stub(crate::js_op::to_number, to_number_stub))]
+    #[cfg_attr(kani, kani::stub(std::fmt::format, crate::verif_support::fmt_stub))]
+    pub(crate) fn k_c10_abstract_minus() {
+        let a = MD::new(Value::Null);
+        let b = MD::new(Value::Null);
+        let (pa, pb) = (plan_operand(0, &a), plan_operand(1, &b));
+        let r = MD::new(abstract_minus(&a, &b));
+        kani::cover!(r.is_ok());
+        kani::cover!(r.is_err());
+        check_bin!(r, pa, pb, -);
+    }
+    /// Operand domain of the *value* part of the `/` and `%` obligations. Bit-level equivalence of two
+    /// double dividers over symbolic operands does not finish in CBMC (measured: a bare `x / y == x / y`
+    /// through an Option > 200 s with CaDiCaL; no usable SMT back end here), so the quotient / remainder is
+    /// checked on a grid of concrete doubles (bounded); Ok/Err and panic-freedom are proved for ALL doubles
+    /// by the `.errors` obligations.
+    const GRID: [f64; 16] = [
+        0.0, -0.0, 1.0, -1.0, 2.0, 3.0, -7.5, 0.1, 10.0, 4.9e-324, 9007199254740993.0, -9223372036854775808.0,
+        1.7976931348623157e308, f64::INFINITY, f64::NEG_INFINITY, 1e-7,
+    ];
+    fn plan_operand_coarse(i: usize, v: &Value) -> Option<f64> {
+        let has: bool = kani::any();
+        let idx: usize = kani::any();
+        kani::assume(idx < 16);
+        let p = if has { Some(GRID[idx]) } else { None };
+        unsafe {
+            TN_PTR[i] = v as *const Value;
+            TN_PLAN[i] = p;
+        }
+        p
+    }
+    //@ob name=C10.abstract_div props=C10,C01 strength=bounded bound="quotient/remainder value on a 16x16 grid of concrete doubles (0,-0,1,-1,2,3,-7.5,0.1,10,4.9e-324,2^53+1,-2^63,f64::MAX,+-inf,1e-7)" fns=js_op::abstract_div stubs=2 timeout=600
+    //@ desc="abstract_div(a,b): Err iff an operand is non-numeric, else bit-exactly to_number(a) / to_number(b) (division by zero gives +-inf/NaN, no panic)"
+    #[cfg_attr(kani, kani::proof)]
+    #[cfg_attr(kani, kani::stub(crate::js_op::to_number, to_number_stub))]
+    #[cfg_attr(kani, kani::stub(std::fmt::format, crate::verif_support::fmt_stub))]
+    pub(crate) fn k_c10_abstract_div() {
+        let a = MD::new(Value::Null);
+        let b = MD::new(Value::Null);
+        let (pa, pb) = (plan_operand_coarse(0, &a), plan_operand_coarse(1, &b));
+        let r = MD::new(abstract_div(&a, &b));
+        kani::cover!(r.is_ok());
+        kani::cover!(r.is_err());
+        check_bin!(r, pa, pb, /);
+    }
+    //@ob name=C10.abstract_div.errors props=C10,C01 strength=complete fns=js_op::abstract_div stubs=2
+    //@ desc="abstract_div(a,b) for ALL doubles: Ok iff both operands are numeric; never panics (no claim about the quotient here)"
+    #[cfg_attr(kani, kani::proof)]
+    #[cfg_attr(kani, kani::stub(crate::js_op::to_number, to_number_stub))]
+    #[cfg_attr(kani, kani::stub(std::fmt::format, crate::verif_support::fmt_stub))]
+    pub(crate) fn k_c10_abstract_div_errors() {
+        let a = MD::new(Value::Null);
+        let b = MD::new(Value::Null);
+        let (pa, pb) = (plan_operand(0, &a), plan_operand(1, &b));
+        let r = MD::new(abstract_div(&a, &b));
+        kani::cover!(r.is_ok());
+        kani::cover!(r.is_err());
+        assert!(r.is_ok() == (pa.is_some() && pb.is_some()), "abstract_div: Ok iff both operands numeric");
+    }
+    //@ob name=C10.abstract_mod props=C10,C01 strength=bounded bound="quotient/remainder value on a 16x16 grid of concrete doubles (0,-0,1,-1,2,3,-7.5,0.1,10,4.9e-324,2^53+1,-2^63,f64::MAX,+-inf,1e-7)" fns=js_op::abstract_mod stubs=2 timeout=600
+    //@ desc="abstract_mod(a,b): Err iff an operand is non-numeric, else bit-exactly the truncated remainder to_number(a) % to_number(b)"
+    #[cfg_attr(kani, kani::proof)]
+    #[cfg_attr(kani, kani::stub(crate::js_op::to_number, to_number_stub))]
+    #[cfg_attr(kani, kani::stub(std::fmt::format, crate::verif_support::fmt_stub))]
+    pub(crate) fn k_c10_abstract_mod() {
+        let a = MD::new(Value::Null);
+        let b = MD::new(Value::Null);
+        let (pa, pb) = (plan_operand_coarse(0, &a), plan_operand_coarse(1, &b));
+        let r = MD::new(abstract_mod(&a, &b));
+        kani::cover!(r.is_ok());
+        kani::cover!(r.is_err());
+        check_bin!(r, pa, pb, %);
+    }
+    //@ob name=C10.abstract_mod.errors props=C10,C01 strength=complete fns=js_op::abstract_mod stubs=2
+    //@ desc="abstract_mod(a,b) for ALL doubles: Ok iff both operands are numeric; never panics"
+    #[cfg_attr(kani, kani::proof)]
+    #[cfg_attr(kani, kani::stub(crate::js_op::to_number, to_number_stub))]
+    #[cfg_attr(kani, kani::stub(std::fmt::format, crate::verif_support::fmt_stub))]
+    pub(crate) fn k_c10_abstract_mod_errors() {
+        let a = MD::new(Value::Null);
+        let b = MD::new(Value::Null);
+        let (pa, pb) = (plan_operand(0, &a), plan_operand(1, &b));
+        let r = MD::new(abstract_mod(&a, &b));
+        kani::cover!(r.is_ok());
+        kani::cover!(r.is_err());
+        assert!(r.is_ok() == (pa.is_some() && pb.is_some()), "abstract_mod: Ok iff both operands numeric");
+    }
+    //@ob name=C10.to_negative props=C10,C01 strength=complete fns=js_op::to_negative stubs=2
+    //@ desc="to_negative(a): Err iff a is non-numeric, else the negation of to_number(a) (numerically; -0 and 0 identified)"
+    #[cfg_attr(kani, kani::proof)]
+    #[cfg_attr(kani, kani::stub(crate::js_op::to_number, to_number_stub))]
+    #[cfg_attr(kani, kani::stub(std::fmt::format, crate::verif_support::fmt_stub))]
+    pub(crate) fn k_c10_to_negative() {
+        let a = MD::new(Value::Null);
+        let pa = plan_operand(0, &a);
+        let r = MD::new(to_negative(&a));
+        kani::cover!(r.is_ok());
+        kani::cover!(r.is_err());
+        match (pa, &*r) {
+            (Some(x), Ok(v)) => assert!(*v == -x, "to_negative: not the negation"),
+            (None, Err(_)) => {}
+            _ => assert!(false, "to_negative: Err iff non-numeric violated"),
+        }
     }
 
     macro_rules! pair_harness {
